@@ -692,6 +692,23 @@ func init() {
 					DelayMs: []int{60, 200, 400}[i%3], Delays: hook[i%len(hook)],
 					Cores: []int{2, 4, 8}[i%3], Race: !c.Quick() && i%4 == 0, Template: tmplFor(i),
 					SlowOne: map[bool]int{true: 500}[tmplFor(i) > 0 || (i/2)%2 == 1]})
+				if i%12 == 10 || i%12 == 3 {
+					// an interrupted and restarted run: skeleton 4 (a stage mapped over a
+					// run-time sized collection, consumed by a second mapped stage); mrp
+					// is stopped when the first fork's job has been seen to finish while
+					// the other forks are still running, then restarted - the ordering
+					// must also hold for what the restarted mrp starts
+					fc := cases[len(cases)-1]
+					fc.Template = 5
+					fc.SlowOne = 0
+					fc.Delays = ""
+					fc.DelayMs = 0
+					fc.Tweak = func(s *pgen.Spec) { s.LenChoices = []int{3} }
+					for _, f := range []string{"fork1", "fork2", "fork_b", "fork_c", "fork_d"} {
+						fc.Rules = append(fc.Rules, pgen.Rule{JobPrefix: "TOP/M1/" + f + "/", DelayBeforeMs: 2000})
+					}
+					fc.Crash = []string{"local:notify#2:KILL", "local:notify#2:TERM", "refresh:route#4:KILL", "local:exited#2:INT"}[(i/12)%4]
+				}
 			}
 			return cases
 		},
